@@ -566,8 +566,7 @@ func (vc *VC) makeSlice(st *State, t types.Type, n, c string, pos token.Pos) *Te
 	elem := t.Underlying().(*types.Slice).Elem()
 	hv := vc.arrHV(elem)
 	r := vc.newObject(st, types.NewArray(elem, 0), false)
-	arrSort := "(Array " + vc.idxSort() + " " + vc.sortOf(elem) + ")"
-	vc.heapSet(st, hv, "(store "+vc.heapGet(st, hv)+" "+r.S+" ((as const "+arrSort+") "+vc.zero(elem).S+"))")
+	vc.heapSet(st, hv, "(store "+vc.heapGet(st, hv)+" "+r.S+" "+vc.zero(types.NewArray(elem, 0)).S+")")
 	return vc.define("mk", &Term{"(mk-slice " + r.S + " " + z + " " + n + " " + c + ")", SSlice, t})
 }
 
